@@ -57,6 +57,8 @@ def oracle(s, reply):
     """The property itself, checked on the implementation's answer. Returns None or a description of the failure."""
     if "panic" in reply or "crash" in reply:
         return "lexer/parser panicked: %s" % str(reply)[:200]
+    if "timeout" in reply or "toks" not in reply:
+        return "lexer/parser does not answer: %s" % str(reply)[:200]
     toks = reply["toks"]
     b = s.encode("utf-8")
     if any(n <= 0 for _, n in toks):
@@ -90,6 +92,14 @@ def gen_strings(rng, tier):
     for _ in range(nrand):
         n = rng.choice([3, 4, 4, 5, 6, 6, 8, 10, 14, 20, 30])
         out.append("".join(rng.choice(ALPHABET) for _ in range(n)))
+    # every character the lexer treats specially or might: all Unicode White_Space characters, the ASCII control characters, the
+    # characters next to the classes it tests for -- alone, doubled, between digits, between words, at either end
+    special = [chr(c) for c in list(range(0, 33)) + [0x7F, 0x85, 0xA0, 0x1680] + list(range(0x2000, 0x200C)) + [0x2028, 0x2029, 0x202F, 0x205F, 0x3000, 0xFEFF,
+               0x2F, 0x3A, 0x40, 0x5B, 0x60, 0x7B, 0xAF, 0xB0, 0xB1, 0x27, 0x2019]]
+    for ch in special:
+        if ch == "\x00":
+            continue
+        out += [ch, ch + ch, "1" + ch + "2", "a" + ch + "b", ch + "1", "1" + ch, "(1" + ch + ")", "{a" + ch + "b}", "1 m" + ch + "s", "1" + ch + "+" + ch + "2"]
     nq = 800 if tier == "quick" else 6000
     for _ in range(nq):
         out.append(random_query(rng))
